@@ -35,8 +35,9 @@ FitsIn64(b) == ZLt(b, Z64)
 
 WidthFor(T, a, b) == IF T.bits > 0 THEN T.bits ELSE ZCommonWidth(a, b)
 
-ValidBitOp(T, op, a, b, out, r) ==
-  out = "ok" /\ ZEq(r, ZBitOp(op, T.signed, WidthFor(T, a, b), a, b))
+\* bt = BitTables, evaluated once by the caller (see Bignum)
+ValidBitOp(bt, T, op, a, b, out, r) ==
+  out = "ok" /\ ZEq(r, ZBitOpT(bt, op, T.signed, WidthFor(T, a, b), a, b))
 
 \* the specified value of a << n for a bounded type and 0 <= n
 ShlBounded(T, a, b) ==
@@ -67,8 +68,8 @@ BitsJudgeable(T, op, a, b) ==
   /\ T.scale = 0
   /\ (op = "shl" /\ T.bits = 0 /\ ~b.n /\ FitsIn64(b)) => (ZFitsInt(b) /\ ZToInt(b) <= MaxExactShift)
 
-ValidBits(T, op, a, b, out, r) ==
-  CASE op \in BitOps -> ValidBitOp(T, op, a, b, out, r)
+ValidBits(bt, T, op, a, b, out, r) ==
+  CASE op \in BitOps -> ValidBitOp(bt, T, op, a, b, out, r)
     [] op = "shl" -> ValidShl(T, a, b, out, r)
     [] op = "shr" -> ValidShr(T, a, b, out, r)
 
